@@ -123,6 +123,58 @@ def flush_before_punch(ctx, chk, prefix):
 import props.anchors as anchors
 
 
+def ww_body(O):
+    return O.body(WRITE_WITH)
+
+
+def occupied_maps_consulted(ctx, chk, rid, fields):
+    """every exit of Layout::is_last_anything that can answer `true` has consulted each of the given maps, and
+    Layout::len reads them (shared by C05 / C10 / C12)."""
+    O, P = ctx.O, ctx.P
+    ila = O.body("rawdb::layout::Layout::is_last_anything")
+    may_true = []
+    for b in ila.reachable():
+        blk = ila.blocks[b]
+        for st in blk["stmts"]:
+            if st[0] == "assign" and st[1]["l"] == 0 and not st[1]["p"]:
+                v = O.const_of(ila, st[2]["ops"][0]) if st[2]["k"] == "use" and st[2].get("ops") else None
+                if v != "0":
+                    may_true.append(b)
+        t = blk["term"]
+        if t["k"] == "call" and t["dest"]["l"] == 0 and not t["dest"]["p"]:
+            may_true.append(b)
+    for field in fields:
+        readers_blocks = _field_read_blocks_deep(ctx, ila, field)
+        inn = O.seen_before(ila, readers_blocks)
+        bad = [b for b in may_true if not (inn[b] or b in readers_blocks)]
+        chk.oblige("%s Layout::is_last_anything: every exit that can answer `true` has consulted %s [%d such exits]" % (
+            rid, field, len(may_true)), bool(may_true) and not bad, key="%s|is_last_anything|true-without-%s" % (rid, field),
+            msg="a region may only be grown in place if nothing lies behind it: reusable holes, freed-but-not-durable "
+                "extents and in-flight reservations of other threads all count")
+        ln = "rawdb::layout::Layout::len"
+        chk.oblige("%s Layout::len accounts for %s" % (rid, field), ln in _field_readers(ctx, "rawdb::layout::Layout", field),
+                   key="%s|len|ignores-%s" % (rid, field),
+                   msg="the end of the allocated area must cover every kind of occupied extent")
+
+
+def _field_read_blocks_deep(ctx, body, field):
+    """blocks of `body` that read `field` directly or call a same-type helper that reads it."""
+    O, P = ctx.O, ctx.P
+    out = set(_field_read_blocks(body, field))
+    readers = _field_readers(ctx, "rawdb::layout::Layout", field)
+    for b, t in body.calls():
+        kind, tg = P.resolve(t["callee"])
+        if kind == "ws" and any(g in readers for g in tg):
+            out.add(b)
+        for a in t["args"]:
+            pl = op_place(a)
+            if pl is not None:
+                for K in body.locals[pl["l"]].get("closures", []):
+                    if K in P.bodies and _field_read_blocks(P.bodies[K], field):
+                        out.add(b)
+    return sorted(out)
+
+
 def pending_holes_occupied(ctx, chk, rid):
     """shared by C05 and C12"""
     O, P = ctx.O, ctx.P
@@ -244,6 +296,28 @@ def run(ctx, chk):
                    msg="the layout's maps are changed only through their designated functions (a freed extent must go "
                        "through pending_holes and promotion)")
     pending_holes_occupied(ctx, chk, "B05.7")
+    # B05.8 open never fails because of what a slot contains (a crash may leave any mix of old and new slot pages,
+    # e.g. two slots with the same name after remove + rename): once the slot loop of Regions::fill has started, no
+    # error exit is reachable
+    fill = O.body("rawdb::regions::Regions::fill")
+    fbs = O.need_sites(fill, M(r"rawdb::region_metadata::RegionMetadata::from_bytes"), 1)
+    ek = O.exit_kinds(fill)
+    errs = [b for b, k in ek.items() if k == "err" and any(O.can_reach(fill, f, [b]) for f in fbs)]
+    chk.oblige("B05.8 Regions::fill: no error exit is reachable once slots are being decoded [%d error exits before the loop]"
+               % sum(1 for k in ek.values() if k == "err"), not errs,
+               detail={"error_exits_in_loop": [fill.blocks[b]["term"].get("span") or "?" for b in errs]},
+               key="B05.8|Regions::fill|error-exit-in-slot-loop",
+               msg="files left by a crash must open: per-slot conditions may only skip the slot, never fail the open")
+    # B05.9 a metadata slot is not written while the file growth its values depend on is still ahead
+    wid = O.sites(ww_body(O), WRITE_IF_DIRTY)
+    grow = O.sites(ww_body(O), M(r"rawdb::Database::set_min_len"))
+    early = [b for b in wid if O.can_reach(ww_body(O), b, grow)]
+    chk.oblige("B05.9 write_with: no write_if_dirty from which a set_min_len is still reachable [%d slot writes, %d growth "
+               "calls]" % (len(wid), len(grow)), bool(wid) and bool(grow) and not early,
+               detail={"early_slot_writes": [ww_body(O).blocks[b]["term"].get("span") for b in early]},
+               key="B05.9|write_with|slot-written-before-growth",
+               msg="a slot describing an extent beyond the current end of the file must not reach the metadata mapping "
+                   "before the file has been grown (a crash or failed growth leaves a region outside the file)")
     # B05.4 dirty tracking
     ww = O.body(WRITE_WITH)
     ws = O.need_sites(ww, DB_WRITE, 5)
